@@ -20,7 +20,7 @@ func checkC13(c *Ctx, r *Report) {
 	for id, txt := range map[string]string{
 		"C13.REFS": "reference positions are covered by a *Ref-conditional replacement whose failed lookup returns an error", "C13.UNIQ": "member tables written only by add(); add() rejects duplicates; parser call sites use add's error",
 		"C13.NAMES": "validateName reached for each named position", "C13.INOUT": "IsOutputType at field positions; IsInputType at every input position (sibling agreement)",
-		"C13.WRAP": "the input/output class predicates look through wrappers to any depth: an answer other than the recursive one is given only for a value proven to be of a named non-wrapper type, or proven to be neither *List nor *NonNull (both wrappers implement the coercer interfaces themselves, so a coercer test alone admits [[T]] for any T)",
+		"C13.WRAP":     "the input/output class predicates look through wrappers to any depth: an answer other than the recursive one is given only for a value proven to be of a named non-wrapper type, or proven to be neither *List nor *NonNull (both wrappers implement the coercer interfaces themselves, so a coercer test alone admits [[T]] for any T)",
 		"C13.NONEMPTY": "emptiness test with error at objects, interfaces, inputs, enums, unions", "C13.UNION": "non-object union member rejected", "C13.IFACE": "validateInterface per implemented interface",
 		"C13.DIRUSE": "validateDirUse reached for the uses at every carrying position", "C13.LOOP": "directive definition cycles rejected", "C13.DROP": "every []error result inside the validation call tree is used", "C13.LOCATE": "Locate's table equals the specification's",
 	} {
